@@ -434,3 +434,16 @@ def _subterms(t, depth=0):
             if isinstance(x, tuple):
                 for y in _subterms(x, depth + 1):
                     yield y
+
+
+def reads_entry_value(term, attr):
+    """Every read of <x>.attr inside the term is of the value the attribute
+    had when the function was entered (version stamp 0) - not of a value
+    that a call made in between may have changed."""
+    found = False
+    for t in _subterms(term):
+        if len(t) == 4 and t[0] == 'a' and t[2] == attr:
+            found = True
+            if t[3] != 0:
+                return False
+    return found
